@@ -25,6 +25,7 @@ import (
 	"strconv"
 	"strings"
 	"sync"
+	"sync/atomic"
 	"testing"
 	"time"
 
@@ -184,13 +185,23 @@ func registerRec() {
 	})
 }
 
+var poisoned atomic.Bool
+
+// Poisoned reports that a program of this process is still running after its time budget
+// and an interrupt (only possible with the classic interpreter or a gomacro defect): the
+// shared trace recorder is no longer reliable, later programs are not run.
+func Poisoned() bool { return poisoned.Load() }
+
 // EvalTimeout bounds one interpreted program (safety net, see DESIGN.md 2.4).
-var EvalTimeout = 30 * time.Second
+var EvalTimeout = 90 * time.Second
 
 // RunInterp evaluates the program in a fresh interpreter.
 func RunInterp(p Program) Result {
+	if Poisoned() {
+		return Result{Err: "not run: an earlier program of this process could not be stopped and may still write to the trace recorder"}
+	}
 	r := runInterpT(p, EvalTimeout)
-	if strings.HasPrefix(r.Err, "hang") {
+	if strings.HasPrefix(r.Err, "hang") && !Poisoned() {
 		// a time budget is never an oracle: on a busy machine a slow run looks like a hang.
 		// Only a program that is still running after a second, 20x longer budget, alone,
 		// is reported as not terminating.
@@ -227,6 +238,7 @@ func runInterpT(p Program, timeout time.Duration) Result {
 		return r // keeps the partial trace: it shows where the program was looping
 	case <-time.After(10 * time.Second):
 	}
+	poisoned.Store(true)
 	return Result{Err: "hang (not interruptible)", Trace: rec.Take()}
 }
 
@@ -670,6 +682,10 @@ func Run(t *testing.T, cfg Config) {
 		table[c.p.Source("p")] = w
 		if c.interp.Panic != "" || w.Panic != "" {
 			r.Label("escaped-panic")
+		}
+		if strings.HasPrefix(c.interp.Err, "not run:") {
+			r.Label("not-compared(process poisoned by a non-interruptible hang)")
+			continue
 		}
 		if !c.interp.Equal(w) {
 			if cfg.Known != nil {
